@@ -10,7 +10,7 @@ INC = -I/verif/shim $(foreach d,common Simplex_tree Persistence_matrix Zigzag_pe
 LDFLAGS_ASAN = $(SAN)
 
 ENGINES_SIMPLE = toplex skbl
-all: $(foreach e,$(ENGINES_SIMPLE),$(BUILD)/$(e)) $(BUILD)/st_hist $(BUILD)/pm_base $(BUILD)/pm_hist $(BUILD)/zz_hist $(BUILD)/own
+all: $(foreach e,$(ENGINES_SIMPLE),$(BUILD)/$(e)) $(BUILD)/st_hist $(BUILD)/pm_base $(BUILD)/pm_hist $(BUILD)/zz_hist $(BUILD)/own $(BUILD)/thr
 
 $(BUILD)/core.o: /verif/sim/core.cpp /verif/sim/core.h
 	@mkdir -p $(BUILD)
@@ -69,6 +69,18 @@ $(foreach k,$(OWN_TUS),$(BUILD)/own_cfg_$(k).o): $(BUILD)/own_cfg_%.o: /verif/en
 	$(CXX) $(CXXFLAGS_COMMON) $(SAN) $(INC) -DGUDHI_USE_TBB -DOWN_TU=$* -c $< -o $@
 $(BUILD)/own: $(BUILD)/own.o $(BUILD)/core.o $(foreach k,$(OWN_TUS),$(BUILD)/own_cfg_$(k).o)
 	$(CXX) $(LDFLAGS_ASAN) $^ -o $@
+
+# thr (C15, thread clause): clang + ThreadSanitizer, sequential sort path, real threads released one at a time by the plan
+CLANGXX ?= clang++
+TSAN = -fsanitize=thread
+$(BUILD)/core_tsan.o: /verif/sim/core.cpp /verif/sim/core.h
+	@mkdir -p $(BUILD)
+	$(CLANGXX) $(CXXFLAGS_COMMON) $(TSAN) -c $< -o $@
+$(BUILD)/thr_tsan.o: /verif/engines/thr.cpp
+	@mkdir -p $(BUILD)
+	$(CLANGXX) $(CXXFLAGS_COMMON) $(TSAN) $(INC) -c $< -o $@
+$(BUILD)/thr: $(BUILD)/thr_tsan.o $(BUILD)/core_tsan.o
+	$(CLANGXX) $(TSAN) $^ -o $@ -lpthread
 
 -include $(wildcard $(BUILD)/*.d)
 .SECONDARY:
